@@ -123,6 +123,8 @@ def parseInl (j : Json) : Except String Inl := do
   else if k == "role" then
     pure (.role (← str j "markup") (optStr j "label") (← str j "target") (← parseRoleSpec (← j.getObjVal? "spec")))
   else if k == "extref" then pure (.extref (← str j "label") (← str j "uri"))
+  else if k == "roleL" then
+    pure (.roleL (← str j "markup") (← str j "labelSrc") (← str j "labelTxt") (← str j "target") (← parseRoleSpec (← j.getObjVal? "spec")))
   else if k == "footref" then pure (.footref (← str j "name"))
   else if k == "subref" then pure (.subref (← str j "name"))
   else if k == "namedref" then pure (.namedref (← str j "name"))
